@@ -229,7 +229,7 @@ void MEDDLY::pregen_relation::splitMxd(splittingOption split)
     for (unsigned i = 0; i < Mu->getSize(); i++) {
       // Initialize column reader
       if (isLevelAbove(-k, mxdF->getNodeLevel(Mu->down(i)))) {
-        Mp->initIdentity(-k, i, Mu->down(i), FULL_ONLY);
+        Mp->initIdentity(-k, i, Mu->down(i));
       } else {
         Mp->initFromNode(Mu->down(i));
       }
@@ -328,7 +328,8 @@ void MEDDLY::pregen_relation::unionLevels()
     apply(UNION, u, events[k], u);
     events[k].set(0);
   }
-  events[u.getLevel()] = u;
+  // the root may be a primed node (level < 0) when the top unprimed level is skipped
+  events[ABS(u.getLevel())] = u;
 }
 
 
@@ -345,6 +346,22 @@ void MEDDLY::pregen_relation::finalize(splittingOption split)
       default: printf("Split: None\n");
     }
 #endif
+    //
+    // The union of the events added at level k can have its root below
+    // level k (for instance when it is the identity at level k).
+    // File it under its own level; saturation assumes that the relation
+    // stored for level k has its root at level k.
+    //
+    for (unsigned k=K; k; k--) {
+      if (0 == events[k].getNode()) continue;
+      const unsigned lev = unsigned(ABS(events[k].getLevel()));
+      if (lev >= k) continue;
+      if (lev) {
+        apply(UNION, events[lev], events[k], events[lev]);
+      }
+      // lev == 0: the identity relation; it adds no states
+      events[k].set(0);
+    }
     splitMxd(split);
     if (split != None && split != MonolithicSplit) {
 #ifdef DEBUG_FINALIZE_SPLIT
